@@ -135,6 +135,14 @@ def cases(rng, tier, Case):
                     use = "[t][%s]" % ul if form == "full" else "[%s]" % ul
                     for doc in ("[%s]: /first 'T1'\n\n%s" % (dl, use), "%s\n\n[%s]: /first 'T1'" % (use, dl)):
                         res.append(Case("parse Cs 100 TR %s" % hx(doc), "resolve-ws", {"dl": dl, "ul": ul, "form": form, "src": hx(doc), "dl2": None}))
+    # White_Space characters (one to three bytes) around a definition: str::trim removes them before the text is scanned
+    for w in ALLWS:
+        if w in "\n\r":
+            continue
+        for d in ("[foo]: /first 'T1'" + w, "[foo]: /first" + w + w, "[foo]: /first 'T1'" + w + "\n[bar]: /b" + w, "[foo]:" + w + "/first" + w + "'T1'" + w,
+                  "[foo]: /first\n'T1'" + w, "> [foo]: /first 'T1'" + w + "\n> " + w, "[foo]: </first>" + w + "\"T1\"" + w + " "):
+            doc = d + "\n\n[foo] [bar]"
+            res.append(Case("parse Cs 100 TR %s" % hx(doc), "trim", {"unit": hx(doc)}))
     for nd in NODEF:
         for doc, real in ((nd + "\n\n[foo]", 0), (nd + "\n\n[foo]: /real\n\n[foo]", 1), ("[foo]\n\n" + nd, 0), ("> " + nd.replace("\n", "\n> ") + "\n\n[foo]", 0)):
             res.append(Case("parse Cs 100 TR %s" % hx(doc), "nodef", {"nodef": real, "src": hx(doc), "dl": "foo", "ul": "foo"}))
